@@ -359,7 +359,8 @@ class RefGene:
 
 
 def vcf_record(pos0, ref, alts, gt):
-    return Obj(pos=pos0 + 1, ref=ref, alleles=tuple([ref] + list(alts)), samples={"S": {"GT": tuple(gt)}})
+    # pysam: `alleles` = (REF, ALT...), `alts` = the ALT alleles or None for a record without any
+    return Obj(pos=pos0 + 1, ref=ref, alleles=tuple([ref] + list(alts)), alts=(tuple(alts) if alts else None), samples={"S": {"GT": tuple(gt)}})
 
 
 def fold_records(f, records, multi=None, samples=("S",), sample_idx=0):
@@ -396,6 +397,7 @@ def r6(repo, res):
         ("REF differs from the gene reference, homozygous for it", [vcf_record(107, "G", ["T"], (0, 0))], None, {(107, "A>G"): 20}, {107: 0}),
         ("ALT equals the gene reference", [vcf_record(107, "G", ["A"], (0, 1))], None, {(107, "A>G"): 10}, {107: 10}),
         ("deletion whose record REF differs from the gene reference", [vcf_record(103, "TAG", ["T"], (0, 1))], None, {(104, "delTG"): 10}, {104: 10}),
+        ("record without alternate allele (monomorphic site)", [vcf_record(102, "G", [], (0, 0))], None, {}, {}),
         ("half-missing genotype", [vcf_record(102, "G", ["T"], (None, 1))], None, {}, {}),
         ("triploid genotype", [vcf_record(102, "G", ["T"], (0, 1, 1))], None, {}, {}),
         ("unrelated complex record", [vcf_record(102, "GT", ["AAA"], (0, 1))], None, {}, {}),
@@ -430,7 +432,7 @@ def r6(repo, res):
                key=f"evidence:{label}")
     res.count("C16.R6:sample records folded", n)
     # several samples in one file: the configured index selects the genotype column
-    rec2 = Obj(pos=103, ref="G", alleles=("G", "T"), samples={"S": {"GT": (0, 0)}, "T": {"GT": (1, 1)}, "U": {"GT": (0, 1)}})
+    rec2 = Obj(pos=103, ref="G", alleles=("G", "T"), alts=("T",), samples={"S": {"GT": (0, 0)}, "T": {"GT": (1, 1)}, "U": {"GT": (0, 1)}})
     rows = {}
     try:
         for idx in (0, 1, 2, 3):
@@ -659,6 +661,8 @@ MUTANTS = [
          old="            return len(self._coverage[mut.pos][mut.op])\n        else:\n            return 0", new="            return len(self._coverage[mut.pos][mut.op])\n        else:\n            return 1"),
     dict(name="R6 indel table consulted for every key", module="coverage", expect="C16.R6",
          old="        if self._indels and (mut.pos, mut.op) in self._indels:\n            return self._indels[mut.pos, mut.op][1]", new="        if self._indels:\n            return self._indels.get((mut.pos, mut.op), (0, 0))[1]"),
+    dict(name="R6 alternates read from `alts` (None for a monomorphic record; seeded C16_c3 shape)", module="sam", expect="C16.R6",
+         old="for a in read.alleles[1:]]", new="for a in read.alts]"),
     dict(name="R6 op spelled from the record's REF (seeded C16_1 shape)", module="sam", expect="C16.R6",
          old='                return off + pos, f"{self.gene[off + pos]}>{alt[off]}"', new='                return off + pos, f"{ref[off]}>{alt[off]}"'),
     dict(name="R6 zero indel entries shadow VCF deletions (seeded C16_4 shape)", module="coverage", expect=["C16.R6"],
